@@ -211,3 +211,5 @@ package actionlint
 //@   loop "range p.parseSectionMapping(sec, n, false, true)":
 //@     invariant [C13] ret.Credentials != nil ==> ret.Credentials.Username != nil && ret.Credentials.Password != nil
 //@     body_calls [C13] (*parser).errorAt iff kv.id == "credentials" && (cred.Username == nil || cred.Password == nil)
+// (the pair is also a non-nil field invariant of Credentials objects that reach the tree)
+//@ nonnil Credentials.Username Credentials.Password also C13
